@@ -611,6 +611,12 @@ func runC14(c *Ctx, r *Run) {
 							hard = true
 						}
 					}
+					// the same test as a comparison: i >= 1<<31 (or i > 1<<31 - 1) on the index parameter
+					if k, ok := constInt(bo.Y); ok && stripConv(bo.X) == ssa.Value(ds.Params[2]) {
+						if (bo.Op == token.GEQ && k == 1<<31) || (bo.Op == token.GTR && k == 1<<31-1) || (bo.Op == token.LSS && k == 1<<31) || (bo.Op == token.LEQ && k == 1<<31-1) {
+							hard = true
+						}
+					}
 				}
 			}
 		})
